@@ -1,6 +1,7 @@
 import Dagrt.Proofs.Unify
 import Dagrt.Proofs.KindOrderProofs
 import Dagrt.Model.Builtins
+import Dagrt.Proofs.RegMonoProofs
 /-!
 # C14 — kind unification is a partial join; kind inference is order-independent
 
@@ -145,5 +146,31 @@ example :
     let r := fun prog => (inferAll (mkRegistry []) prog).toOption.map
       (fun t => (t.get "p" "x", t.get "p" "y", t.get "p" "<t>", t.get "p" "<dt>"))
     r [s1, s2] = r [s2, s1] ∧ (r [s1, s2]).isSome = true := by decide +kernel
+
+/-- **The hypothesis on the registry is met** by the registries the property talks about - the
+    built-ins whose result kinds do not depend on refinable argument kinds (norms, `len`, `isnan`,
+    `dot_product`, `array`, `print`, `elementwise_abs`) plus any user functions registered with fixed
+    result kinds: for them order independence holds with no assumption on the functions. -/
+theorem inference_order_independent_builtins (fixed : List (Name × List Kind))
+    (prog prog' : List (Name × KStmt)) (hsame : ∀ p, p ∈ prog ↔ p ∈ prog')
+    (hph : ∀ p ∈ prog, p.1 ≠ "")
+    (t t' : Table) (h : inferAll (mkRegistrySimple fixed) prog = .ok t)
+    (h' : inferAll (mkRegistrySimple fixed) prog' = .ok t')
+    (hn : ∀ p ∈ prog, NoIgnored (mkRegistrySimple fixed) t p.1 p.2)
+    (hn' : ∀ p ∈ prog', NoIgnored (mkRegistrySimple fixed) t' p.1 p.2) :
+    ∀ key, lookupE t.entries key = lookupE t'.entries key :=
+  inference_order_independent _ (regMono_simple fixed) prog prog' hsame hph t t' h h' hn hn'
+
+/-- the restriction to those built-ins is needed for the PROOF (monotonicity fails for `matmul`,
+    `regMono_fails_matmul`: a scalar argument is answered, the user type it may be refined to raises) -/
+theorem matmul_not_monotone : ¬ RegMono (mkRegistry []) := regMono_fails_matmul
+
+/-- non-vacuity: a program over the simple registry whose two orders both succeed -/
+example :
+    let s1 : Name × KStmt := ("p", .callAssign ["n"] "<builtin>norm_2" [.var "x"] [])
+    let s2 : Name × KStmt := ("p", .callAssign ["x"] "<func>rhs" [.var "<t>"] [])
+    let reg := mkRegistrySimple [("<func>rhs", [.user "y"])]
+    let r := fun prog => (inferAll reg prog).toOption.map (fun t => (t.get "p" "x", t.get "p" "n"))
+    r [s1, s2] = r [s2, s1] ∧ r [s1, s2] = some (some (.user "y"), some (.scalar true)) := by decide +kernel
 
 end Dagrt.C14
